@@ -673,3 +673,9 @@ S("C05", "manager-default-dropped", "C05-R1")
 S("C06", "strip-by-pool-identity", "C06-R1")
 S("C07", "match-only-when-we-disabled", "C07-R3")
 S("C18", "merge-truthiness", "C18-R8")
+S("C08", "bare-star-matches-empty-label", "C08-R1")
+S("C09", "proxy-headers-merged-in-place", "C09-R3")
+S("C10", "buffer-length-in-items", "C11-R6")
+S("C11", "rewind-forgets-position", "C11-R4")
+S("C12", "chunk-left-zero-not-none", "C13-R9")
+S("C13", "gzip-tolerant-too-early", "C13-R4")
